@@ -214,3 +214,138 @@ Example C15_displayed_example :
   Forall2 xeq (strand_share_displayed sums subs [(-2)%Z; 0%Z; 1%Z; 3%Z; (-1)%Z])
               [Fin (3 # 10); Fin (1 # 10); Fin (1 # 5); Fin (2 # 5); Fin (7 # 10)].
 Proof. vm_compute. repeat constructor. Qed.
+
+(* ==== GenAgree (measures): what matrix/measure.py, stripe/measure.py, cubepart.py SAY NOW ==== *)
+(* Gen/MeasureSrc.v, Gen/StripeMeasureSrc.v, Gen/PartMeasureSrc.v are REWRITTEN FROM THE SOURCE on every
+   check by harness/translate/measures.py (an `ast` whitelist, fail-closed): one [option mexp] per
+   (class, member) -- per block for a `blocks` member -- read through the wiring of the collection class.
+   The theorems below say that what the source SAYS NOW ([meval] / the signed-square reading [meval_sq] of
+   the translated term, Base/MeasureExp.v), for ALL input blocks, sizes and subtotal lists, IS the
+   definition of Model.Share the theorems above are about -- tagged shape and every in-range cell.
+   [None] on the left = the translator could not read the member (then only the correspondence ties it).
+   A change of meaning in the source breaks these obligations (Proofs/GenAgreeShare.v fails). *)
+From Coq Require String.
+From CC Require Base.MeasureExp Model.Subtotals Model.Proportions Gen.MeasureSrc Gen.StripeMeasureSrc Gen.PartMeasureSrc Gen.Tables
+     Proofs.GenAgreeMeasTac Proofs.GenAgreeShare.
+Section GenAgreeMeasures_C15.   (* scopes and imports below end with the section *)
+Import Coq.Strings.String CC.Base.MeasureExp CC.Model.Subtotals CC.Model.Proportions CC.Gen.MeasureSrc CC.Gen.StripeMeasureSrc
+       CC.Gen.PartMeasureSrc CC.Gen.Tables CC.Proofs.GenAgreeMeasTac CC.Proofs.GenAgreeShare.
+Import Coq.Lists.List.ListNotations CC.Base.XQ.
+Local Close Scope Q_scope.
+Local Open Scope string_scope.
+Local Open Scope nat_scope.
+
+Theorem C15_gen_row_share_sum :
+  (match src_RowShareSum_blocks_00 with
+  | Some e => forall nr nc rsubs csubs rd cd blk cubem cubeflag flag,
+      holds_mat (menv_mat nr nc rsubs csubs rd cd blk cubem cubeflag flag) e DR DC
+        (mnth (b_base (row_share (cubem "cube_sum" "sums") nr nc rsubs csubs)))
+  | None => True
+  end) /\
+  (match src_RowShareSum_blocks_01 with
+  | Some e => forall nr nc rsubs csubs rd cd blk cubem cubeflag flag,
+      holds_mat (menv_mat nr nc rsubs csubs rd cd blk cubem cubeflag flag) e DR DCS
+        (mnth (b_cols (row_share (cubem "cube_sum" "sums") nr nc rsubs csubs)))
+  | None => True
+  end) /\
+  (match src_RowShareSum_blocks_10 with
+  | Some e => forall nr nc rsubs csubs rd cd blk cubem cubeflag flag,
+      holds_mat (menv_mat nr nc rsubs csubs rd cd blk cubem cubeflag flag) e DRS DC
+        (mnth (b_rows (row_share (cubem "cube_sum" "sums") nr nc rsubs csubs)))
+  | None => True
+  end) /\
+  (match src_RowShareSum_blocks_11 with
+  | Some e => forall nr nc rsubs csubs rd cd blk cubem cubeflag flag,
+      holds_mat (menv_mat nr nc rsubs csubs rd cd blk cubem cubeflag flag) e DRS DCS
+        (mnth (b_inter (row_share (cubem "cube_sum" "sums") nr nc rsubs csubs)))
+  | None => True
+  end).
+Proof. exact (conj gen_RowShareSum_blocks_00 (conj gen_RowShareSum_blocks_01 (conj gen_RowShareSum_blocks_10 gen_RowShareSum_blocks_11))). Qed.
+Print Assumptions C15_gen_row_share_sum.
+
+Theorem C15_gen_column_share_sum :
+  (match src_ColumnShareSum_blocks_00 with
+  | Some e => forall nr nc rsubs csubs rd cd blk cubem cubeflag flag,
+      holds_mat (menv_mat nr nc rsubs csubs rd cd blk cubem cubeflag flag) e DR DC
+        (mnth (b_base (col_share (cubem "cube_sum" "sums") nr nc rsubs csubs)))
+  | None => True
+  end) /\
+  (match src_ColumnShareSum_blocks_01 with
+  | Some e => forall nr nc rsubs csubs rd cd blk cubem cubeflag flag,
+      holds_mat (menv_mat nr nc rsubs csubs rd cd blk cubem cubeflag flag) e DR DCS
+        (mnth (b_cols (col_share (cubem "cube_sum" "sums") nr nc rsubs csubs)))
+  | None => True
+  end) /\
+  (match src_ColumnShareSum_blocks_10 with
+  | Some e => forall nr nc rsubs csubs rd cd blk cubem cubeflag flag,
+      holds_mat (menv_mat nr nc rsubs csubs rd cd blk cubem cubeflag flag) e DRS DC
+        (mnth (b_rows (col_share (cubem "cube_sum" "sums") nr nc rsubs csubs)))
+  | None => True
+  end) /\
+  (match src_ColumnShareSum_blocks_11 with
+  | Some e => forall nr nc rsubs csubs rd cd blk cubem cubeflag flag,
+      holds_mat (menv_mat nr nc rsubs csubs rd cd blk cubem cubeflag flag) e DRS DCS
+        (mnth (b_inter (col_share (cubem "cube_sum" "sums") nr nc rsubs csubs)))
+  | None => True
+  end).
+Proof. exact (conj gen_ColumnShareSum_blocks_00 (conj gen_ColumnShareSum_blocks_01 (conj gen_ColumnShareSum_blocks_10 gen_ColumnShareSum_blocks_11))). Qed.
+Print Assumptions C15_gen_column_share_sum.
+
+Theorem C15_gen_total_share_sum :
+  (match src_TotalShareSum_blocks_00 with
+  | Some e => forall nr nc rsubs csubs rd cd blk cubem cubeflag flag,
+      holds_mat (menv_mat nr nc rsubs csubs rd cd blk cubem cubeflag flag) e DR DC
+        (mnth (b_base (total_share (cubem "cube_sum" "sums") nr nc rsubs csubs)))
+  | None => True
+  end) /\
+  (match src_TotalShareSum_blocks_01 with
+  | Some e => forall nr nc rsubs csubs rd cd blk cubem cubeflag flag,
+      holds_mat (menv_mat nr nc rsubs csubs rd cd blk cubem cubeflag flag) e DR DCS
+        (mnth (b_cols (total_share (cubem "cube_sum" "sums") nr nc rsubs csubs)))
+  | None => True
+  end) /\
+  (match src_TotalShareSum_blocks_10 with
+  | Some e => forall nr nc rsubs csubs rd cd blk cubem cubeflag flag,
+      holds_mat (menv_mat nr nc rsubs csubs rd cd blk cubem cubeflag flag) e DRS DC
+        (mnth (b_rows (total_share (cubem "cube_sum" "sums") nr nc rsubs csubs)))
+  | None => True
+  end) /\
+  (match src_TotalShareSum_blocks_11 with
+  | Some e => forall nr nc rsubs csubs rd cd blk cubem cubeflag flag,
+      holds_mat (menv_mat nr nc rsubs csubs rd cd blk cubem cubeflag flag) e DRS DCS
+        (mnth (b_inter (total_share (cubem "cube_sum" "sums") nr nc rsubs csubs)))
+  | None => True
+  end).
+Proof. exact (conj gen_TotalShareSum_blocks_00 (conj gen_TotalShareSum_blocks_01 (conj gen_TotalShareSum_blocks_10 gen_TotalShareSum_blocks_11))). Qed.
+Print Assumptions C15_gen_total_share_sum.
+
+Theorem C15_gen_strand_share_sum :
+  (match ssrc_ShareSum_base_values with
+  | Some e => forall subs rd vblk sums,
+      holds_vec (senv_std (List.length sums) subs rd vblk (share_cube sums)) e DR
+        (vnth (stripe_share_base sums))
+  | None => True
+  end) /\
+  (match ssrc_ShareSum_subtotal_values with
+  | Some e => forall subs rd vblk sums,
+      holds_vec (senv_std (List.length sums) subs rd vblk (share_cube sums)) e DRS
+        (vnth (stripe_share_subtotals sums subs))
+  | None => True
+  end).
+Proof. exact (conj gen_stripe_ShareSum_base_values gen_stripe_ShareSum_subtotal_values). Qed.
+Print Assumptions C15_gen_strand_share_sum.
+
+(* non-vacuity: sums 1, 3 in one column: the translated column share of row 1 is 3/4 *)
+Example C15_gen_example :
+  match src_ColumnShareSum_blocks_00 with
+  | Some e =>
+      let cubem := fun (_ _ : string) => [[Fin 1%Q]; [Fin 3%Q]] in
+      match meval (menv_mat 2 1 [] [] false false (fun _ _ _ => []) cubem (fun _ _ => false) (fun _ => false)) e with
+      | VMat DR DC f => f 1 0 =x= Fin (Qmake 3 4)
+      | _ => False
+      end
+  | None => True
+  end.
+Proof. vm_compute. first [exact I | reflexivity]. Qed.
+
+End GenAgreeMeasures_C15.
